@@ -89,6 +89,9 @@ class LeanState:
     def __init__(self):
         self.tables_changed = False
         self.tables_unavailable = []
+        self.logic_changed = False
+        self.logic_unavailable = []
+        self.logic_targets = []
         self.driver_ok = False
         self.proofs_ok = False
         self.build_log = ""
@@ -110,6 +113,15 @@ def lean_build(clean=False) -> LeanState:
         st.tables_unavailable = list(gen_tables.UNAVAILABLE)
         for u in st.tables_unavailable:
             log("table not translatable from the working tree, tie falls back to the correspondence:", u)
+        from . import py2lean, py2lean_targets
+        try:
+            st.logic_changed = py2lean.regenerate()
+        except Exception as e:  # noqa
+            raise Infra(f"logic translator cannot run: {type(e).__name__}: {e}")
+        st.logic_unavailable = list(py2lean.UNAVAILABLE)
+        st.logic_targets = [f"{t['module']}.{t['func']}" for t in py2lean_targets.TARGETS]
+        for u in st.logic_unavailable:
+            log("function not translatable from the working tree, tie falls back to the correspondence:", u)
         if clean:
             _run(["rm", "-rf", os.path.join(LEAN, ".lake", "build")])
         rc, out = _run(["lake", "build", "p0fdrv"])
